@@ -303,6 +303,8 @@ func main() {
 		var seed uint64
 		fmt.Sscan(os.Args[4], &seed)
 		runnerPath, out := os.Args[5], os.Args[6]
+		setGoRunnerPath(runnerPath)
+		wireGoEval()
 		c, ok := campaigns[prop]
 		if !ok {
 			fatal("no campaign for %s", prop)
@@ -345,6 +347,7 @@ func main() {
 		os.Exit(raceWorker(seed, iters, gor))
 	case "replay":
 		runnerPath, path := os.Args[2], os.Args[3]
+		setGoRunnerPath(runnerPath)
 		b, err := os.ReadFile(path)
 		if err != nil {
 			fatal("%v", err)
